@@ -115,3 +115,107 @@ impl Semaphore {
         self.0.available_permits()
     }
 }
+
+macro_rules! shim_atomic {
+    ($name:ident, $int:ty, $doc:expr) => {
+        #[doc = $doc]
+        #[derive(Debug, Default)]
+        pub(crate) struct $name(std::sync::atomic::$name);
+
+        #[allow(dead_code)]
+        impl $name {
+            pub(crate) const fn new(value: $int) -> Self {
+                Self(std::sync::atomic::$name::new(value))
+            }
+            pub(crate) fn load(&self, order: Ordering) -> $int {
+                verif::point("sync.atomic.pre_load");
+                self.0.load(order)
+            }
+            pub(crate) fn store(&self, value: $int, order: Ordering) {
+                verif::point("sync.atomic.pre_store");
+                self.0.store(value, order)
+            }
+            pub(crate) fn swap(&self, value: $int, order: Ordering) -> $int {
+                verif::point("sync.atomic.pre_rmw");
+                self.0.swap(value, order)
+            }
+            pub(crate) fn fetch_add(&self, value: $int, order: Ordering) -> $int {
+                verif::point("sync.atomic.pre_rmw");
+                self.0.fetch_add(value, order)
+            }
+            pub(crate) fn fetch_sub(&self, value: $int, order: Ordering) -> $int {
+                verif::point("sync.atomic.pre_rmw");
+                self.0.fetch_sub(value, order)
+            }
+            pub(crate) fn fetch_max(&self, value: $int, order: Ordering) -> $int {
+                verif::point("sync.atomic.pre_rmw");
+                self.0.fetch_max(value, order)
+            }
+            pub(crate) fn fetch_min(&self, value: $int, order: Ordering) -> $int {
+                verif::point("sync.atomic.pre_rmw");
+                self.0.fetch_min(value, order)
+            }
+            pub(crate) fn compare_exchange(
+                &self,
+                current: $int,
+                new: $int,
+                success: Ordering,
+                failure: Ordering,
+            ) -> Result<$int, $int> {
+                verif::point("sync.atomic.pre_rmw");
+                self.0.compare_exchange(current, new, success, failure)
+            }
+            pub(crate) fn compare_exchange_weak(
+                &self,
+                current: $int,
+                new: $int,
+                success: Ordering,
+                failure: Ordering,
+            ) -> Result<$int, $int> {
+                verif::point("sync.atomic.pre_rmw");
+                self.0.compare_exchange(current, new, success, failure)
+            }
+            pub(crate) fn fetch_update<F>(
+                &self,
+                set_order: Ordering,
+                fetch_order: Ordering,
+                mut f: F,
+            ) -> Result<$int, $int>
+            where
+                F: FnMut($int) -> Option<$int>,
+            {
+                verif::point("sync.atomic.pre_rmw");
+                let mut prev = self.0.load(fetch_order);
+                while let Some(next) = f(prev) {
+                    match self
+                        .0
+                        .compare_exchange_weak(prev, next, set_order, fetch_order)
+                    {
+                        Ok(x) => return Ok(x),
+                        Err(x) => prev = x,
+                    }
+                }
+                Err(prev)
+            }
+            pub(crate) fn get_mut(&mut self) -> &mut $int {
+                self.0.get_mut()
+            }
+            pub(crate) fn into_inner(self) -> $int {
+                self.0.into_inner()
+            }
+        }
+    };
+}
+
+use std::sync::atomic::Ordering;
+
+shim_atomic!(
+    AtomicUsize,
+    usize,
+    "Wrapper around [`std::sync::atomic::AtomicUsize`]: every access is a schedule point."
+);
+shim_atomic!(
+    AtomicIsize,
+    isize,
+    "Wrapper around [`std::sync::atomic::AtomicIsize`]: every access is a schedule point."
+);
